@@ -95,6 +95,14 @@ def shared_obligations(ctx, rule, owners=None, with_expressions=False):
 
 
 def run(ctx):
+    ctx.model._c04_running = True
+    try:
+        return _run(ctx)
+    finally:
+        ctx.model._c04_running = False
+
+
+def _run(ctx):
     M = ctx.model
     units = template_units(ctx)
     programs = 0
